@@ -374,6 +374,12 @@ def api_step(plan):
         res = {}
         fn = plan['fn']
         if plan['dry']:
+            # a dry run still builds the computational grids (the CLI prints
+            # them): option VALUES that admit no grid fail here, as they
+            # would in a real run
+            if not sim.layered:
+                for s_, f_ in sim._srcfreq:
+                    sim.get_grid(s_, f_)
             res['data'] = np.zeros(sim.survey.shape, dtype=complex)
         elif fn == 'forward':
             sim.compute(observed=True, **plan['noise'])
@@ -809,10 +815,14 @@ def one_run(c, steps, tmp):
             compared += 1
             msg = (f"{type(what).__name__}: {what}" if status == 'raise'
                    else f"exit {str(what)[:200]}")
-            if astat not in ('ok', 'accept') and status == 'raise' and \
-                    type(what) is type(ares):
+            if status == 'raise' and type(what) is type(ares) and (
+                    astat not in ('ok', 'accept') or
+                    (astat == 'accept' and str(what) == str(ares))):
                 # the API sequence fails in the same way after accepting the
-                # options: equivalent behaviour (not a CLI matter)
+                # options - or rejects the same VALUES with the very same
+                # error while building the Simulation (e.g. 'No suitable grid
+                # found', 'seasurface must be bigger than center'):
+                # equivalent behaviour (not a CLI matter)
                 outcomes.append(f'both-fail:{astat}:{type(what).__name__}')
                 break
             viol.append({'cls': f'{lab}-rejected', 'stage': astat,
@@ -1144,7 +1154,11 @@ def cases_depth1(thorough):
                 e2 = ('cfg', 'simulation', 'layered', 'False')
                 cs.append(mk_case([e, e2], FUNCS[n % 3], FMTS[n % 3],
                                   'real', n))
-        cs.append(mk_case([e], FUNCS[n % 3], FMTS[(n // 3) % 3], 'dry', n))
+        # dry runs are cheap: every value meets every file format (a survey
+        # read from npz / json holds other scalar types than one from h5)
+        for j in range(3):
+            cs.append(mk_case([e], FUNCS[(n + j) % 3],
+                              FMTS[(n // 3 + j) % 3], 'dry', n + j))
         if sec == 'gridding_opts' and GRID_REAL.get(key) == i:
             comp = [('cfg',) + g for g in GRID_SMALL if g[1] != key]
             c = mk_case([e] + comp, FUNCS[n % 3], FMTS[n % 3], 'real', n)
